@@ -5,11 +5,6 @@ import Hls.Proofs.MasterWrittenRT
 -/
 namespace Hls
 
-theorem quotable_mapUnquote (o : Option Str) (x : Str) (h : o.map unquote = some x) : Quotable x := by
-  cases o with
-  | none => cases h
-  | some v => simp only [Option.map_some, Option.some.injEq] at h; subst h; exact quotable_unquote v
-
 /-! ## EXT-X-MEDIA -/
 
 theorem lookupIdx_go_lt (names : List String) (s : Str) (i j : Nat) (h : lookupIdx.go s names i = some j) : j < i + names.length := by
@@ -47,16 +42,6 @@ theorem channels_parse_lt (s : Str) (c : Channels) (h : Channels.parse s = .ok c
       · cases h
     | err => rw [hp] at h; cases h
     | panic => rw [hp] at h; cases h
-
-theorem optParse_some {α} (f : Str → Res α) (o : Option Str) (x : α) (h : optParse f o = some x) : ∃ v, o = some v ∧ f v = .ok x := by
-  cases o with
-  | none => cases h
-  | some v =>
-    simp only [optParse, Option.bind_some] at h
-    cases hf : f v with
-    | ok y => rw [hf] at h; simp only [Res.toOption, Option.some.injEq] at h; subst h; exact ⟨v, rfl, hf⟩
-    | err => rw [hf] at h; cases h
-    | panic => rw [hf] at h; cases h
 
 /-- `build` only returns values that pass `validate` again when written and re-read -/
 theorem validate_mediaBuilderOf (b : ExtXMediaBuilder) (t : ExtXMedia) (h : b.build = .ok t) : (mediaBuilderOf t).validate = true := by
